@@ -66,6 +66,9 @@ func createCmd(globalCfg *globalConfig, cfg *createConfig) error {
 		if err != nil {
 			return fmt.Errorf("failed to create big index writer: %w", err)
 		}
+		// release the writer's open transaction before the deferred tempDB.Close() runs;
+		// without it, any error before Flush made the command hang forever.
+		defer idx.Close()
 
 		iw = idx
 	} else {
